@@ -1077,3 +1077,192 @@ pub fn yaml_reload(yaml: &str) -> Result<Result<String, String>, Panic> {
         }
     })
 }
+
+// ---------------------------------------------------------------------------
+// C19: the YAML dump, through the public `NodeWrapper` (a `CfgWrapper` is a
+// transparent sequence of them)
+
+use riscv_analysis::cfg::{AvailableValueMap, NodeWrapper};
+use riscv_analysis::parser::{CsrImm, LabelString, Token, With};
+
+#[derive(Clone, Debug, PartialEq, Eq, Serialize, Deserialize)]
+pub struct WrapNode {
+    pub shown: String,
+    pub labels: Vec<String>,
+    pub func_entry: Vec<usize>,
+    pub func_exit: Vec<usize>,
+    pub nexts: Vec<usize>,
+    pub prevs: Vec<usize>,
+    pub reg_in: BTreeMap<u8, Val>,
+    pub reg_out: BTreeMap<u8, Val>,
+    pub mem_in: BTreeMap<Loc, Val>,
+    pub mem_out: BTreeMap<Loc, Val>,
+    pub live_in: u32,
+    pub live_out: u32,
+    pub u_def: u32,
+}
+
+fn sorted_vec<T: Ord + Clone>(it: impl Iterator<Item = T>) -> Vec<T> {
+    let mut v: Vec<T> = it.collect();
+    v.sort();
+    v
+}
+
+fn wrap_view(n: &NodeWrapper) -> WrapNode {
+    WrapNode {
+        shown: n.node.to_string(),
+        labels: sorted_vec(n.labels.iter().cloned()),
+        func_entry: sorted_vec(n.func_entry.iter().copied()),
+        func_exit: sorted_vec(n.func_exit.iter().copied()),
+        nexts: sorted_vec(n.nexts.iter().copied()),
+        prevs: sorted_vec(n.prevs.iter().copied()),
+        reg_in: n.reg_values_in.iter().map(|(r, v)| (r.to_num(), val(v))).collect(),
+        reg_out: n.reg_values_out.iter().map(|(r, v)| (r.to_num(), val(v))).collect(),
+        mem_in: n.memory_values_in.iter().map(|(l, v)| (loc(l), val(v))).collect(),
+        mem_out: n.memory_values_out.iter().map(|(l, v)| (loc(l), val(v))).collect(),
+        live_in: set_mask(&n.live_in),
+        live_out: set_mask(&n.live_out),
+        u_def: set_mask(&n.u_def),
+    }
+}
+
+/// The view of a live graph in the same shape (what the dump is supposed to hold).
+pub fn wrap_view_of_cfg(v: &CfgView) -> Vec<WrapNode> {
+    v.nodes
+        .iter()
+        .map(|n| WrapNode {
+            shown: n.shown.clone(),
+            labels: n.labels.clone(),
+            func_entry: sorted_vec(n.funcs.iter().map(|f| v.functions[*f].entry)),
+            func_exit: sorted_vec(n.funcs.iter().map(|f| v.functions[*f].exit)),
+            nexts: n.nexts.clone(),
+            prevs: n.prevs.clone(),
+            reg_in: n.reg_in.clone(),
+            reg_out: n.reg_out.clone(),
+            mem_in: n.mem_in.clone(),
+            mem_out: n.mem_out.clone(),
+            live_in: n.live_in,
+            live_out: n.live_out,
+            u_def: n.u_def,
+        })
+        .collect()
+}
+
+pub fn yaml_load_view(yaml: &str) -> Result<Result<Vec<WrapNode>, String>, Panic> {
+    guarded(|| {
+        // load as the CfgWrapper first (that is what the golden tests do), then as its node list
+        let _: CfgWrapper = serde_yaml::from_str(yaml).map_err(|e| format!("load failed: {e}"))?;
+        let nodes: Vec<NodeWrapper> = serde_yaml::from_str(yaml).map_err(|e| format!("load failed: {e}"))?;
+        Ok(nodes.iter().map(wrap_view).collect())
+    })
+}
+
+fn unval(v: &Val) -> AvailableValue {
+    let reg = |r: &u8| Register::from_num(*r % 32).unwrap_or(Register::X0);
+    match v {
+        Val::Const(c) => AvailableValue::Constant(*c),
+        Val::Addr(l) => AvailableValue::Address(With::new(LabelString::new(l.clone()), Token::default())),
+        Val::Mem(l, o) => AvailableValue::Memory(LabelString::new(l.clone()), *o),
+        Val::RegS(r, o) => AvailableValue::RegisterWithScalar(reg(r), *o),
+        Val::OrigS(r, o) => AvailableValue::OriginalRegisterWithScalar(reg(r), *o),
+        Val::MemAtReg(r, o) => AvailableValue::MemoryAtRegister(reg(r), *o),
+        Val::MemAtOrig(r, o) => AvailableValue::MemoryAtOriginalRegister(reg(r), *o),
+        Val::Csr(c) => AvailableValue::ValueInCsr(CsrImm::new(*c)),
+        Val::MemAtCsr(c, o) => AvailableValue::MemoryAtCsr(CsrImm::new(*c), *o),
+    }
+}
+
+fn unloc(l: &Loc) -> MemoryLocation {
+    match l {
+        Loc::Stack(o) => MemoryLocation::StackOffset(*o),
+        Loc::Csr(c) => MemoryLocation::CsrRegister(CsrImm::new(*c)),
+        Loc::CsrOff(c, o) => MemoryLocation::CsrRegisterValueOffset(CsrImm::new(*c), *o),
+    }
+}
+
+/// One-fact mutations of a dumped analysis result.
+#[derive(Clone, Debug, PartialEq, Eq, Serialize, Deserialize)]
+pub enum Mutation {
+    ToggleNext { node: usize, to: usize },
+    TogglePrev { node: usize, to: usize },
+    ToggleLive { node: usize, set: u8, reg: u8 },
+    SetReg { node: usize, out: bool, reg: u8, val: Val },
+    RemoveReg { node: usize, out: bool, reg: u8 },
+    SetMem { node: usize, out: bool, loc: Loc, val: Val },
+    SetFuncEntry { node: usize, to: usize },
+    SetFuncExit { node: usize, to: usize },
+    ToggleLabel { node: usize, label: String },
+}
+
+fn toggle<T: std::hash::Hash + Eq>(s: &mut std::collections::HashSet<T>, x: T) {
+    if !s.remove(&x) {
+        s.insert(x);
+    }
+}
+
+fn map_without<T: PartialEq + Eq + std::hash::Hash + Clone>(m: &AvailableValueMap<T>, k: &T) -> AvailableValueMap<T> {
+    m.iter().filter(|(x, _)| *x != k).map(|(x, v)| (x.clone(), v.clone())).collect()
+}
+
+/// Load, mutate one fact, dump. Returns (dump of the mutated structure, its direct view).
+pub fn yaml_mutate(yaml: &str, muts: &[Mutation]) -> Result<Result<(String, Vec<WrapNode>), String>, Panic> {
+    guarded(|| {
+        let mut nodes: Vec<NodeWrapper> = serde_yaml::from_str(yaml).map_err(|e| format!("load failed: {e}"))?;
+        let n = nodes.len();
+        if n == 0 {
+            return Err("empty graph".to_string());
+        }
+        for m in muts {
+            match m {
+                Mutation::ToggleNext { node, to } => toggle(&mut nodes[node % n].nexts, to % n),
+                Mutation::TogglePrev { node, to } => toggle(&mut nodes[node % n].prevs, to % n),
+                Mutation::ToggleLive { node, set, reg } => {
+                    let r = Register::from_num(1 + reg % 31).unwrap_or(Register::X1);
+                    let nd = &mut nodes[node % n];
+                    let s = match set % 3 {
+                        0 => &mut nd.live_in,
+                        1 => &mut nd.live_out,
+                        _ => &mut nd.u_def,
+                    };
+                    if s.contains(&r) {
+                        s.unset_register(&r);
+                    } else {
+                        s.set_register(&r);
+                    }
+                }
+                Mutation::SetReg { node, out, reg, val } => {
+                    let r = Register::from_num(reg % 32).unwrap_or(Register::X0);
+                    let nd = &mut nodes[node % n];
+                    if *out {
+                        nd.reg_values_out.insert(r, unval(val));
+                    } else {
+                        nd.reg_values_in.insert(r, unval(val));
+                    }
+                }
+                Mutation::RemoveReg { node, out, reg } => {
+                    let r = Register::from_num(reg % 32).unwrap_or(Register::X0);
+                    let nd = &mut nodes[node % n];
+                    if *out {
+                        nd.reg_values_out = map_without(&nd.reg_values_out, &r);
+                    } else {
+                        nd.reg_values_in = map_without(&nd.reg_values_in, &r);
+                    }
+                }
+                Mutation::SetMem { node, out, loc, val } => {
+                    let nd = &mut nodes[node % n];
+                    if *out {
+                        nd.memory_values_out.insert(unloc(loc), unval(val));
+                    } else {
+                        nd.memory_values_in.insert(unloc(loc), unval(val));
+                    }
+                }
+                Mutation::SetFuncEntry { node, to } => nodes[node % n].func_entry = vec![to % n],
+                Mutation::SetFuncExit { node, to } => nodes[node % n].func_exit = vec![to % n],
+                Mutation::ToggleLabel { node, label } => toggle(&mut nodes[node % n].labels, label.clone()),
+            }
+        }
+        let view = nodes.iter().map(wrap_view).collect();
+        let dump = serde_yaml::to_string(&nodes).map_err(|e| format!("dump failed: {e}"))?;
+        Ok((dump, view))
+    })
+}
